@@ -299,6 +299,8 @@ _EDITS = [
  ("C04", "NOT proved: the target-temperature side of a gliding utility's profile (the Q_tt limit), hence",
   "gliding_level_respects_return_limit - for EVERY valid interval past a gliding utility's target temperature the share of its duty still to be released beyond that row fits the load the profile holds there (the Q_tt limit; false of the code under seeded change C09-glide-cap-max). NOT proved: the row-wise inequality on rows that are not ends of valid intervals, hence"),
  ("C07", "closing_temperature_is_where_pocket_closes (", "exit_search_spec (_pocket_exit_index returns the row before the FIRST row, up to and including the pinch row, whose value has dropped to h0 - tol, every row passed over staying above it; false of the code under seeded change C07-exit-search-skips-pinch-row); closing_temperature_is_where_pocket_closes ("),
+ ("C17", "clean_sublist", "knees_and_turning_points_kept (whatever the curve, an interior point that is a turning point of a vertical run or lies more than tol - in kelvin - off the chord of its two neighbours is kept by the middle loop; false of the code under seeded changes C13-vertical-run-drops-turning-point and C17-cross-multiplied-collinearity), repeated_point_keeps_corner (kernel-decided witness of fix bdc25b9), clean_sublist"),
+ ("C19", "run_consistent", "isothermal_band (a stream entered with equal supply and target temperature occupies [T, T + iso] when cold and [T - iso, T] when hot), run_consistent"),
  ("C18", "Oracle: 10 refrigerants x random",
   "Oracle: refrigerants (half from 10 common ones, half from every fluid of the property library with a two-phase range above -60 C, 90+ fluids) x random"),
 ]
